@@ -247,15 +247,28 @@ fn with_unknown(nodes: &[Node], mask: u32, next: &mut u32) -> Vec<Node> {
 /// C07 excludes the inherently ambiguous case: a global element directly after an unknown-size master
 /// (directly after = next element in the byte stream once that master's content is over), and an
 /// unknown-size master whose end is not observable through a following element that ends it.
-fn ambiguous(table: &bs::Table, nodes: &[Node], follower: Option<u64>) -> bool {
+fn ambiguous(table: &bs::Table, nodes: &[Node], follower: Option<u64>) -> bool { ambiguous_in(table, nodes, follower, &[]) }
+/// `enclosing`: the run of unknown-size masters directly enclosing `nodes` (outermost first); an unknown-size master
+/// is observably closed by the following element f if f ends it directly or ends one of those enclosing masters
+/// (C07: "or closes in that way an unknown-size master directly enclosing it").
+fn ambiguous_in(table: &bs::Table, nodes: &[Node], follower: Option<u64>, enclosing: &[u64]) -> bool {
     for (i, n) in nodes.iter().enumerate() {
         // the element that follows node i in the byte stream: its next sibling, else the parent's follower
         let next_id = nodes.get(i + 1).map(|m| match m { Node::M { id, .. } => *id, Node::L { tag, .. } => tag.get_id() }).or(follower);
         if let Node::M { id, unknown, ch, .. } = n {
-            if *unknown { if let Some(f) = next_id { if !rf::ended_by(table, *id, f) { return true; } } }
+            if *unknown {
+                if let Some(f) = next_id {
+                    let closes = rf::ended_by(table, *id, f) || (nodes.get(i + 1).is_none() && enclosing.iter().any(|e| rf::ended_by(table, *e, f)));
+                    if !closes { return true; }
+                }
+            }
             // what follows the last child of this master: if this master is known-size its byte count closes the children
-            let child_follower = if *unknown { next_id } else { None };
-            if ambiguous(table, ch, child_follower) { return true; }
+            let (child_follower, child_enclosing): (Option<u64>, Vec<u64>) = if *unknown {
+                let mut e = if nodes.get(i + 1).is_none() { enclosing.to_vec() } else { vec![] };
+                e.push(*id);
+                (next_id, e)
+            } else { (None, vec![]) };
+            if ambiguous_in(table, ch, child_follower, &child_enclosing) { return true; }
         }
     }
     false
@@ -592,6 +605,7 @@ pub fn unit_docs(budget: usize, thorough: bool) -> Report {
                 // headers longer than 8 bytes (8-byte unknown-size fields) under every capacity / chunking / mask
                 check_input(&table, &ub, &mut rep, thorough, true);
                 if thorough || mask == (1 << m) - 1 { check_trunc(&table, &ub, &uflat, &mut rep); }
+                check_c02(&table, &ub, &t, &mut rep);
             }
         }
         check_trunc(&table, &bytes, &flat, &mut rep);
